@@ -108,7 +108,7 @@ Section C07.
 
   Definition item_of (c : tree) : list gblock :=
     match c with T _ cn ck =>
-      (if first_is_leaf ck then GPara (node_inlines cn) else GPlain (node_inlines cn))
+      (if first_is_leaf ck then GPara (out_inlines parent cn) else GPlain (out_inlines parent cn))
         :: flat_map (project_node parent 0) ck end.
 
   Lemma items_ok c :
@@ -268,20 +268,23 @@ Section C01.
     [Link (to_rel_link_url key parent) "" rt
        match rt with Regular => [Str text] | WikiLink => [] | WikiLinkPiped => [Str text] end].
 
-  (* content of a tree, in document order *)
+  (* content of a tree, in document order, as it is written in a note of the directory [parent]:
+     the tree holds note links by key, block references and inline links alike, and both are
+     written relative to the note ([ref_inlines], [rel_inlines]) *)
   Fixpoint tcontent (t : tree) {struct t} : list citem :=
     match t with
     | T _ n kids =>
         match n with
         | NDocument _ | NQuote => flat_map tcontent kids
-        | NSection l => CI l :: flat_map tcontent kids
+        | NSection l => CI (rel_inlines parent l) :: flat_map tcontent kids
         | NBList | NOList =>
-            flat_map (fun c => match c with T _ cn ck => CI (node_inlines cn) :: flat_map tcontent ck end) kids
-        | NLeaf l => [CI l]
+            flat_map (fun c => match c with T _ cn ck => CI (out_inlines parent cn) :: flat_map tcontent ck end) kids
+        | NLeaf l => [CI (rel_inlines parent l)]
         | NRaw lang text => [CC lang text]
         | NRule => [CR]
         | NRef key text rt => [CI (ref_inlines key text rt)]
-        | NTable h _ rows => map CI h ++ flat_map (map CI) rows
+        | NTable h _ rows =>
+            map CI (map (rel_inlines parent) h) ++ flat_map (map CI) (map (map (rel_inlines parent)) rows)
         end
     end.
 
@@ -328,7 +331,7 @@ Section C01.
        | [] => []
        | x :: r => (fix go (l : list gblock) : list citem := match l with [] => [] | x :: r => gcontent x ++ go r end) x ++ goi r
        end) (map (item_of parent) c)
-    = flat_map (fun c => match c with T _ cn ck => CI (node_inlines cn) :: flat_map tcontent ck end) c.
+    = flat_map (fun c => match c with T _ cn ck => CI (out_inlines parent cn) :: flat_map tcontent ck end) c.
   Proof.
     induction 1 as [|t c Ht _ IH]; cbn [map flat_map]; [reflexivity|].
     rewrite IH. f_equal. destruct t as [i cn ck]. cbn [item_of t_children] in *.
